@@ -68,12 +68,13 @@ struct Client
    VSession * session;               // owned by the server
    std::string host, sid;
    bool reflectSelf;
+   std::vector<std::string> routeKeys; bool hasRoute;
    std::map<std::string, Sub> subs;  // param name -> subscription
    std::map<std::string, std::string> mirror;                  // node path -> payload dump
    std::map<std::string, ConstMessageRef> mirrorMsg;           // node path -> payload (for the client-side filter test on unsubscribe)
    std::map<std::string, std::vector<std::string> > idx;       // node path -> index (names)
    std::vector<std::string> inbox;                             // canonical descriptions of what arrived since the last pump line
-   Client() : attached(false), blocked(false), tainted(false), usedFilter(false), gw(NULL), session(NULL), reflectSelf(false) {}
+   Client() : attached(false), blocked(false), tainted(false), usedFilter(false), gw(NULL), session(NULL), reflectSelf(false), hasRoute(false) {}
 };
 
 static volatile long g_opDeadlineLine = 0;
@@ -498,7 +499,7 @@ struct SrvEngine : public Engine
          if (t[2] == "self") {(void) m()->AddBool(PR_NAME_REFLECT_TO_SELF, true); c.reflectSelf = true;}
          else if ((t[2] == "maxitems")&&(t.size() == 4)) {uint64_t n; if (!toU64(t[3], n)) return "bad-op"; (void) m()->AddInt32(PR_NAME_MAX_UPDATE_MESSAGE_ITEMS, (int32)n);}
          else if (t[2] == "nosubs") {(void) m()->AddBool(PR_NAME_DISABLE_SUBSCRIPTIONS, true); c.tainted = true;}
-         else if ((t[2] == "route")&&(t.size() >= 4)) {for (size_t k=3; k<t.size(); k++) {std::string p; if (!unhex(t[k], p)) return "bad-op"; (void) m()->AddString(PR_NAME_KEYS, MS(p));}}
+         else if ((t[2] == "route")&&(t.size() >= 4)) {c.routeKeys.clear(); c.hasRoute = true; for (size_t k=3; k<t.size(); k++) {std::string p; if (!unhex(t[k], p)) return "bad-op"; (void) m()->AddString(PR_NAME_KEYS, MS(p)); c.routeKeys.push_back(p);}}
          else return "bad-op";
       }
       else if ((op == "unparam")&&(t.size() == 3))
@@ -506,7 +507,7 @@ struct SrvEngine : public Engine
          m = GetMessageFromPool(PR_COMMAND_REMOVEPARAMETERS);
          if (t[2] == "self") {(void) m()->AddString(PR_NAME_KEYS, EscapeRegexTokens(PR_NAME_REFLECT_TO_SELF)); c.reflectSelf = false; c.tainted = true;}
          else if (t[2] == "maxitems") (void) m()->AddString(PR_NAME_KEYS, EscapeRegexTokens(PR_NAME_MAX_UPDATE_MESSAGE_ITEMS));
-         else if (t[2] == "route") (void) m()->AddString(PR_NAME_KEYS, EscapeRegexTokens(PR_NAME_KEYS));
+         else if (t[2] == "route") {(void) m()->AddString(PR_NAME_KEYS, EscapeRegexTokens(PR_NAME_KEYS)); c.routeKeys.clear(); c.hasRoute = false;}
          else return "bad-op";
       }
       else if (op == "getparams") m = GetMessageFromPool(PR_COMMAND_GETPARAMETERS);
@@ -537,7 +538,48 @@ struct SrvEngine : public Engine
          m = GetMessageFromPool(1234);
          (void) m()->AddInt32("tag", (int32)tag);
          (void) m()->AddString(PR_NAME_SESSION, "666");
-         for (size_t k=3; k<t.size(); k++) {std::string p; if (!unhex(t[k], p)) return "bad-op"; (void) m()->AddString(PR_NAME_KEYS, MS(p));}
+         std::vector<std::string> keys;
+         for (size_t k=3; k<t.size(); k++) {std::string p; if (!unhex(t[k], p)) return "bad-op"; (void) m()->AddString(PR_NAME_KEYS, MS(p)); keys.push_back(p);}
+         if (inBatch[si]) return command(si, m);
+         // C05: delivered exactly once to every session the patterns select (brute force over the tree), to nobody else
+         pumpAll();
+         std::vector<int> want(NSLOTS, 0), before(NSLOTS, 0);
+         {
+            const bool broadcast = keys.empty() && !c.hasRoute;
+            const std::vector<std::string> & eff = keys.empty() ? c.routeKeys : keys;
+            PathMatcher pm; for (size_t k=0; k<eff.size(); k++) {String q = MS(eff[k]); pm.AdjustStringPrefix(q, "*/*"); (void) pm.PutPathString(q, ConstQueryFilterRef());}
+            DataNode * r = root(); std::vector<DataNode *> nodes; if (r) walk(*r, nodes);
+            for (int j=0; j<NSLOTS; j++) if ((cl[j].attached)&&((j != si)||(c.reflectSelf)))
+            {
+               if (broadcast) {want[j] = 1; continue;}
+               for (size_t k=1; k<nodes.size(); k++)
+               {
+                  String np; (void) nodes[k]->GetNodePath(np);
+                  if ((ownerOf(S(np)) == cl[j].sid)&&(pm.MatchesPath(np(), nodes[k]->GetData()(), nodes[k]))) {want[j] = 1; break;}
+               }
+            }
+         }
+         const std::string marker = " tag=" + u64s(tag);
+         for (int j=0; j<NSLOTS; j++) for (size_t k=0; k<cl[j].inbox.size(); k++) if ((cl[j].inbox[k].compare(0, 4, "MSG ") == 0)&&(cl[j].inbox[k].size() >= marker.size())&&(cl[j].inbox[k].compare(cl[j].inbox[k].size()-marker.size(), marker.size(), marker) == 0)) before[j]++;
+         const std::string res = command(si, m);
+         for (int j=0; j<NSLOTS; j++) if ((cl[j].attached)&&(!cl[j].blocked))
+         {
+            int got = -before[j];
+            for (size_t k=0; k<cl[j].inbox.size(); k++) if ((cl[j].inbox[k].compare(0, 4, "MSG ") == 0)&&(cl[j].inbox[k].size() >= marker.size())&&(cl[j].inbox[k].compare(cl[j].inbox[k].size()-marker.size(), marker.size(), marker) == 0))
+            {
+               got++;
+               if (cl[j].inbox[k].find(" from=" + c.sid + " ") == std::string::npos) oracleFail("C05: delivered Message does not name the true sender " + c.sid + ": " + cl[j].inbox[k]);
+            }
+            if (got != want[j])
+            {
+               // input class label (used by known_findings.json): a key naming the session node itself together with a deeper key
+               bool sessLevel = false, deeper = false;
+               const std::vector<std::string> & eff = keys.empty() ? c.routeKeys : keys;
+               for (size_t k=0; k<eff.size(); k++) {String q = MS(eff[k]); PathMatcher().AdjustStringPrefix(q, "*/*"); const int d = GetPathDepth(q()); if (d == 2) sessLevel = true; else if (d > 2) deeper = true;}
+               oracleFail("C05: routed Message (tag " + u64s(tag) + ") delivered " + u64s((uint64_t)(got < 0 ? 0 : got)) + " time(s) to session " + cl[j].sid + ", the patterns select it " + u64s(want[j]) + " time(s)" + (((got == 2)&&(want[j] == 1)&&(sessLevel)&&(deeper)) ? " [keys: session-level pattern together with a deeper pattern]" : ""));
+            }
+         }
+         return res;
       }
       else if ((op == "ping")&&(t.size() == 3))
       {
